@@ -218,12 +218,26 @@ def _sources(b, oa, sc):
         if a['l'] == sc and not a['p'] and not fp:
             out.append(('itself', bi))
             return
-        visit(a['l'], tuple(field_path(a['p'])) + tuple(fp), bi)
+        # field names, with the variant an enum payload was read out of kept as '#Variant'
+        pp = []
+        for e in a['p']:
+            if isinstance(e, dict) and 'downcast' in e:
+                pp.append('#%s' % e['downcast'])
+            elif isinstance(e, dict) and 'f' in e:
+                pp.append(e.get('n') or str(e['f']))
+        visit(a['l'], tuple(pp) + tuple(fp), bi)
 
     def rvalue(rv, fp, bi):
         if rv['r'] == 'use':
             operand(rv['a'], fp, bi)
         elif rv['r'] == 'aggr' and fp and rv.get('agg') in ('tuple', 'adt'):
+            if fp[0].startswith('#'):
+                if rv.get('variant') is not None and rv.get('variant') != fp[0][1:]:
+                    return          # this definition builds another variant: it cannot be what the payload is read from
+                fp = fp[1:]
+                if not fp:
+                    out.append(('other', 'whole variant at bb%d' % bi))
+                    return
             names = rv.get('fields') or [str(i) for i in range(len(rv['ops']))]
             idx = None
             for i, n in enumerate(names):
@@ -255,9 +269,10 @@ def _sources(b, oa, sc):
                     if 'l' in a0:
                         visit(a0['l'], tuple(field_path(a0['p'])) + ('0',), bi)
                         continue
-                if bi == oa.decision_bb and fp == ('0',):
+                fpn = tuple(x for x in fp if not x.startswith('#'))
+                if bi == oa.decision_bb and fpn == ('0',):
                     out.append(('accepted-payload', frm))
-                elif is_trait_call(payload, 'State', 'score') and fp == ('0',) and bi not in oa.inner['body']:
+                elif is_trait_call(payload, 'State', 'score') and fpn == ('0',) and bi not in oa.inner['body']:
                     out.append(('initial-score', frm))
                 else:
                     out.append(('other', 'call result at bb%d%s' % (bi, (' field ' + '.'.join(fp)) if fp else '')))
@@ -267,7 +282,8 @@ def _sources(b, oa, sc):
             if bi not in oa.cfg.reach:
                 continue
             wp = tuple(field_path(pl['p']))
-            if fp[:len(wp)] == wp:
+            fpx = tuple(x for x in fp if not x.startswith('#'))
+            if fpx[:len(wp)] == wp and not any(x.startswith('#') for x in fp):
                 n += 1
                 if rv.get('r') in ('call', 'setdiscr'):
                     out.append(('other', 'partial write by %s at bb%d' % (rv.get('r'), bi)))
